@@ -31,11 +31,10 @@ theorem compare_item_is_model (c : Cfg) (a b : α) : interpCmp le c .less a b = 
 /-- the translated `sort_vector` -/
 def interpSort (c : Cfg) (asc : Bool) (v : List α) : List α :=
   let s := v.mergeSort le
-  let eff := asc ^^ c.tac
-  if (if OVecFns.sortReversesWhenNotAsc then !eff else eff) then s.reverse else s
+  if OVecFns.sortReverses asc c.tac then s.reverse else s
 
 theorem sort_vector_is_model (c : Cfg) (asc : Bool) (v : List α) : interpSort le c asc v = sortVec le c asc v := by
-  unfold interpSort sortVec OVecFns.sortReversesWhenNotAsc
+  unfold interpSort sortVec OVecFns.sortReverses
   cases asc <;> cases c.tac <;> simp
 
 /-- the translated movement loop -/
@@ -86,10 +85,10 @@ theorem append_is_model (c : Cfg) (s : State α) (batch : List α) : interpAppen
 
 /-- `get`: `None` iff `len() <= index`; the index read is mirrored only under `--tac --no-sort` -/
 theorem get_index_is_model (tac nosort : Bool) (n index : Nat) :
-    OVecFns.getNone tac nosort n index = decide (n ≤ index) ∧
-    OVecFns.getIndex tac nosort n index = (if tac && nosort then n - index - 1 else index) := by
-  unfold OVecFns.getNone OVecFns.getIndex
-  cases tac <;> cases nosort <;> simp <;> fn_eq
+    OVecFns.getRead tac nosort n index =
+      (if n ≤ index then none else some (if tac && nosort then n - index - 1 else index)) := by
+  unfold OVecFns.getRead
+  cases tac <;> cases nosort <;> simp <;> (repeat' split) <;> (first | rfl | omega | (simp only [Option.some.injEq]; omega) | simp_all | (simp_all; omega))
 
 /-! ### `merge_till` -/
 
